@@ -76,6 +76,11 @@ def run_case(desc):
             # target lacks one of the source's dimensions
             tgt = [l for l in letters if l != xd["letters"][0]]
             require(raises(lambda: x.cast_to(build.dimset(U, tgt))), "cast-accepts-target-lacking-source-dim", f"{xd['letters']} -> {tgt}")
+            # ... also when it holds ANOTHER dimension (other letter) that merely has the same name and items
+            lost = build.udim(U, xd["letters"][0])
+            namesake = fd.Dimension(letter="Z", name=lost["name"], items=list(lost["items"]), dtype=build._DT[lost.get("dtype")])
+            tds = fd.DimensionSet(dim_list=[namesake if l == xd["letters"][0] else build.dimension(build.udim(U, l)) for l in letters])
+            require(raises(lambda: x.cast_to(tds)), "cast-accepts-target-lacking-source-dim", f"{xd['letters']} -> {[d.letter for d in tds]} (a namesake of '{xd['letters'][0]}' under letter Z)")
         elif op == "shares":
             require(raises(lambda: x.get_shares_over(("z",))), "shares-accepts-unknown-dimension", "")
         require(build.snapshot(x) == snap, "input-modified", op)
